@@ -23,6 +23,9 @@ THEOREMS = [
     "Typedpy.C17.step_contract_holds", "Typedpy.C17.step_contract_top_holds", "Typedpy.C17.convert_steps_contract",
     "Typedpy.C17.step_contract_sensitive_example", "Typedpy.C17.nonpositive_version_accepted_example",
     "Typedpy.C17.nonpositive_rejected_refuted", "Typedpy.C17.convert_nonpositive_characterised",
+    "Typedpy.C17.sites_copy_today", "Typedpy.C17.no_param_writes_today", "Typedpy.C17.nested_reads_input_today",
+    "Typedpy.C17.convert_input_intact", "Typedpy.C17.convert_input_intact_today",
+    "Typedpy.C17.step_input_intact_today", "Typedpy.C17.convert_result_disjoint", "Typedpy.C17.heap_examples",
 ]
 RULE = ("histories of 0..5 (thorough 0..8) mappings over top-level keys a..e (+ rarely `version`) with Constant, Deleted, "
         "moves (plain and dotted paths, degenerate paths), nested `._mapper` entries (depth <= 2) over sub-documents and "
@@ -50,6 +53,12 @@ TRUSTED_EXTRA = [
     "input_dict (theorem versioned_deser_equiv quantifies over it); tied to the code by comparing the Versioned class on the "
     "document with a non-Versioned twin class on the converted document",
 ]
+
+
+def pre_build():
+    # copy sites / parameter writes of versioned_mapping.py, read off the source under test (heap-level theorems)
+    from extract import aliasing_c17
+    aliasing_c17.generate()
 
 
 def cases(rng, tier):
